@@ -875,3 +875,24 @@ v("C16", "iterRangeShape-drops-point-refresh", "fire", I,
 v("C16", "iterRange-point-refresh-conditional", "fire", I,
   "                if is_collecting and tick:\n                    Metrics.addUse(rank, coord, i + j)",
   "                if is_collecting and tick and start_pos is None:\n                    Metrics.addUse(rank, coord, i + j)", "C16.R4")
+
+# round 3
+seed("C01", "C01-c", "C01.R4")
+seed("C02", "C02-c", "C02.R2")
+seed("C01", "C03-c", "C01.R4")
+seed("C04", "C04-c", "C04.R8")
+seed("C05", "C05-c", "C05.R4")
+seed("C14", "C07-c", "C14.R2")
+seed("C10", "C07-c", "C10.R1")
+seed("C08", "C08-c", "C08.R6")
+seed("C09", "C09-c", "C09.R4")
+seed("C11", "C11-c", "C11.R2")
+seed("C04", "C12-c", "C04.R6")
+seed("C13", "C13-c", "C13.R2")
+seed("C14", "C14-c", "C14.R1")
+seed("C15", "C15-c", "C15.R1")
+seed("C16", "C16-c", "C16.R4")
+seed("C17", "C17-c", "C17.R7")
+seed("C18", "C18-c", "C18.R2")
+seed("C19", "C19-c", "C19.R2")
+seed("C20", "C20-c", "C20.R6")
